@@ -49,6 +49,7 @@ def gen(rng: Any, tier: str, i: int) -> Any:
     prog = c05.gen(rng, tier, i)
     while prog["mode"] == "api3":  # 3-phase composition is exercised by C05 only
         prog = c05.gen(rng, tier, i)
+    prog.pop("gap", None)  # (every stream carries a sample for every timestamp here; gaps are C05/C06)
     n = prog["nleaf"]
     while len(prog["vectors"]) < 10:
         prog["vectors"].append([rng.choice(fm.POOL) for _ in range(n)])
